@@ -233,6 +233,12 @@ def register(chk):
     chk.add("wrappers", ob_wrappers)
 
 
+def include_in(chk):
+    """this check's obligations registered inside a check of a layer above (framework.Check.include)"""
+    miller.prog()
+    register(chk)
+
+
 def main(argv=None):
     chk = Check("C08", "proof", argv)
     miller.prog()
@@ -241,6 +247,9 @@ def main(argv=None):
     chk.bounds = ["list lengths n (affine) and m (prepared) in {0,1,2} (quick) / {0..3} (thorough), every combination of identity flags (symbolic), stale cursors symbolic",
                   "the 63-step loop over the bits of |x| is executed in full (concrete trip count); longer lists: the per-pair loops are uniform in the pair index (not proved by induction here)"]
     chk.trusted = ["step kernels / line evaluation meet their specification (C01.1)", "final exponentiation is a homomorphism (C01.3)", "T8"]
+    # lower layers whose specifications this check relies on: their obligations are part of this check's claim (framework.Check.include)
+    for dep in ['C02', 'C04', 'C01']:
+        chk.include(dep)
     chk.run()
     chk.finish()
 
